@@ -20,7 +20,7 @@ from .C15 import defgrad
 PROP = "C20"
 
 EVIDENCE = {
-    "probes_expected": ["frames-compared", "early-stop-file-read-back", "roundtrip-compared", "save-compared", "merged-container-read", "custom-data-compared", "fault:h5_create_fail", "fault:disk_full", "second-job-compared", "mesh-object-history", "save-with-gradient", "multibody-x0-file-compared"],
+    "probes_expected": ["frames-compared", "early-stop-file-read-back", "roundtrip-compared", "save-compared", "merged-container-read", "custom-data-compared", "fault:h5_create_fail", "fault:disk_full", "second-job-compared", "mesh-object-history", "save-with-gradient", "multibody-x0-file-compared", "second-step-on-sibling-model"],
     "components": {
         "real": ["felupe (from /repo/src)", "numpy", "scipy incl. SuperLU", "meshio writers/readers", "h5py/HDF5 on a real scratch file"],
         "simulated": ["h5py.File proxy (fails on the n-th create_dataset / on close)", "linear solver fault layer", "job callback and data callables", "clock"],
@@ -231,6 +231,12 @@ def run_job(doc, log):
         return jobsim.wrap_umat(um, lambda *a: holder["eng"].umat_hook(k)(*a))
 
     w = world.World(dd, umat_wrap=wrap)
+    if len(dd["steps"]) == 2 and not opts.get("x0") and pick(dd["seed"], "sibling-step", 3) == 0:
+        # the second step acts on a re-created sibling of the model (its own field container, starting
+        # from its own undeformed state): the frames of that step hold the states of that step
+        w2 = world.World(dd, umat_wrap=wrap)
+        w.steps = [w.steps[0], w2.steps[1]]
+        log.count("second-step-on-sibling-model")
     eng = jobsim.Engine(w, dd, log)
     holder["eng"] = eng
     frames = []  # file model
